@@ -63,6 +63,7 @@ def _case(draw):
         "nudged": draw(st.sampled_from([False, False, True])),
         "aligned": draw(st.sampled_from([False, False, True])),
         "levels_desc": draw(st.sampled_from([False, False, True])),
+        "modes_kind": draw(st.sampled_from(["fit", "fit", "x-above", "y-above"])),
         "src_loc": draw(st.sampled_from([None, [30.0, 110.0], [125.0, 40.0]])),  # ideal source off the domain centre
         "flux_shape": draw(st.sampled_from(["diamond", "circle", "point"])),
         "delays": [[draw(st.sampled_from([120, 0, 60, 20, 0])) for _ in range(nt)] for _ in range(ntow)],
@@ -93,6 +94,9 @@ def _config(case):
             "int-desc": [40, 30, 20, 10][:nt],
         }.get(style, [f"2024-06-01T{h:02d}:00" for h in range(nt)])  # True (older replay files) / "iso"
     dom = {"nx": 8, "ny": 6, "xmax": 160.0, "ymax": 150.0, "nz": 4, "modes": [8, 6], "ref_lat": 48.0, "ref_lon": 11.0}
+    if case.get("modes_kind", "fit") != "fit":
+        # one count far above the padded grid, the other below it: the solver then keeps all modes on both axes
+        dom["modes"] = [64, 4] if case["modes_kind"] == "x-above" else [4, 64]
     if case.get("levels_desc"):
         dom["output_levels"] = [3, 1]  # two output levels, upper one first
     if case["halo"] == "zero":
